@@ -410,6 +410,51 @@ def proto7 : Proto where
   isAccept := P7.isAccept
 
 
+/-! ## 0.6: an accepting side created by `Connection::new_accept_token`
+
+The handshake was answered by a stateless listener: the accepting connection object `b` starts
+online with the agreed token, and the history of its direction already holds the `ConnectAccept`
+datagram(s) the listener sent (`k` copies, stamped with the counters 0 / 0). -/
+
+def World.initAccept6 (now token k : Nat) : World (proto6 false) :=
+  { a := { conn := Conn6.Conn.new }
+    b := { conn := Conn6.Conn.newAcceptToken ⟨now, []⟩ token
+           out := List.replicate k ⟨.control 0 (some token) .connectAccept, 0, 0⟩ }
+    now := now }
+
+/-! ## Example schedules (non-vacuity of the C01 theorems) -/
+
+/-- after the handshake: three vital chunks and a non-vital one in two datagrams; the second
+datagram arrives first (twice), the receiver asks for a resend, the resent chunks arrive, then the
+delayed first datagram -/
+def traffic (P : Proto) (alt : P.Alt) (first fb : Nat) : List (Move P) :=
+  [.call .a [] (.send [1] true), .call .a [] (.send [2] true), .call .a [] .flush,
+   .call .a [] (.send [3] true), .call .a [] (.send [9] false), .call .a [] .flush,
+   .deliver .b (first + 1) [] alt, .deliver .b (first + 1) [] alt,
+   .call .b [] .flush,
+   .deliver .a fb [] alt,
+   .call .a [] .flush,
+   .deliver .b (first + 2) [] alt,
+   .deliver .b first [] alt,
+   .advance 600000, .call .b [] .tick, .deliver .a (fb + 1) [] alt,
+   .call .b [] (.send [7] true), .call .b [] .flush, .deliver .a (fb + 2) [] alt]
+
+def demo6 (tokenless : Bool) : List (Move (proto6 tokenless)) :=
+  [.call .a [] .connect, .deliver .b 0 [12345] .exact, .deliver .a 0 [] .exact, .deliver .b 0 [] .exact] ++
+  traffic (proto6 tokenless) .exact 2 1
+
+def demo7 : List (Move proto7) :=
+  [.call .a [111] .connect, .deliver .b 0 [222] (), .deliver .a 0 [] (), .deliver .b 1 [] (),
+   .deliver .a 1 [] ()] ++ traffic proto7 () 2 2
+
+/-- submitted by a / handed to b (vital, non-vital) / handed to a; `Ready` events of a -/
+def summary {P : Proto} (w : World P) : List (List Bytes) × Nat :=
+  ([w.a.submittedVital, w.b.deliveredVital, w.b.deliveredNonvital, w.a.deliveredVital], readyCount w.a.events)
+
+/-- `new_accept_token`: the client connects, the listener's `ConnectAccept` reaches it, then traffic -/
+def demoAccept6 : List (Move (proto6 false)) :=
+  [.call .a [] .connect, .deliver .a 0 [] .exact] ++ traffic (proto6 false) .exact 2 1
+
 /-! ## The online cores alone (first stage of the development, kept as a self-contained result)
 
 `Core.Sys` is two `Online` states (indexed by `Bool`) without handshake and tokens; the moves use the
